@@ -54,6 +54,7 @@ type XGrammar struct {
 	FixWS    bool
 	Opts     []string
 	Types    []string // all arrow names used
+	Twins    int      // lists that repeat an earlier list's element under another node name
 }
 
 // XEvent is an expected listener event in token-index space: the node covers
@@ -153,6 +154,8 @@ type xgen struct {
 	types int
 	opt   XGenOptions
 	emptyNT []bool
+	lists   []*XExpr
+	twins   int
 }
 
 func (x *xgen) newType() string {
@@ -221,11 +224,24 @@ func (x *xgen) element(nt, depth int) *XExpr {
 		}
 		return ch
 	case k < 11:
+		if len(x.lists) > 0 && !x.opt.NoArrows && x.r.Intn(3) == 0 {
+			// a twin of an earlier list: same element, same kind, but another node name
+			prev := x.lists[x.r.Intn(len(x.lists))]
+			inner := prev.Sub[0]
+			if inner.Kind == XSeq && len(inner.Sub) == 1 && inner.Sub[0].Kind == XArrow {
+				inner = inner.Sub[0].Sub[0]
+			}
+			twin := &XExpr{Kind: XList, Sep: prev.Sep, Plus: prev.Plus}
+			twin.Sub = []*XExpr{{Kind: XSeq, Sub: []*XExpr{{Kind: XArrow, Sub: []*XExpr{cloneX(inner)}, Arrow: x.newType()}}}}
+			x.twins++
+			return twin
+		}
 		l := &XExpr{Kind: XList, Sep: -1, Plus: x.r.Intn(2) == 0}
 		if x.r.Intn(2) == 0 {
 			l.Sep = x.r.Intn(x.nT)
 		}
 		l.Sub = []*XExpr{x.maybeArrowSeq(x.seq(nt, depth+1, true), 3)}
+		x.lists = append(x.lists, l)
 		return l
 	default:
 		return &XExpr{Kind: XArrow, Sub: []*XExpr{x.seq(nt, depth+1, x.r.Intn(3) > 0)}, Arrow: x.newType()}
@@ -295,6 +311,7 @@ func RandXGrammar(r *rand.Rand, opt XGenOptions) *XGrammar {
 			}
 		}
 	}
+	g.Twins = x.twins
 	g.Inputs = []Input{{NT: 0}}
 	for {
 		reach := g.reachable()
@@ -674,4 +691,13 @@ func (s *xsampler) seq(e *XExpr, pending *[]XEvent) {
 			s.events = append(s.events, own...)
 		}
 	}
+}
+
+func cloneX(e *XExpr) *XExpr {
+	c := *e
+	c.Sub = nil
+	for _, s := range e.Sub {
+		c.Sub = append(c.Sub, cloneX(s))
+	}
+	return &c
 }
